@@ -26,6 +26,7 @@ type Config struct {
 	MapOrderFns   map[string]bool // functions in which map range order is nondeterministic
 	SymbolicLen   bool            // vpNondetString keeps a symbolic length instead of forking
 	TimeoutS      int             // wall-clock budget of one harness run
+	TickingClock  bool            // with FixedClock: every reading is one microsecond later than the previous one
 	FixedClock    bool            // time.Now returns one fixed instant (harnesses whose logic depends on the clock only through offsets they choose)
 }
 
@@ -34,16 +35,17 @@ func DefaultConfig() Config {
 }
 
 type Stats struct {
-	Steps        int64
-	Forks        int
-	Merges       int
-	Allocs       int
-	Goroutines   int
-	Paths        int
-	Calls        int
-	MaxDepthSeen int
-	ModelHits    int
-	Functions    map[string]int
+	Steps           int64
+	Forks           int
+	Merges          int
+	Allocs          int
+	Goroutines      int
+	PrunedSchedules int
+	Paths           int
+	Calls           int
+	MaxDepthSeen    int
+	ModelHits       int
+	Functions       map[string]int
 }
 
 // Engine is one symbolic execution context (one harness run).
